@@ -109,6 +109,27 @@ Fixpoint to_root_seq (c : list Z) (indices : list Z) : res (list Z) :=
   | i :: t => match to_root c i with Ok c1 => to_root_seq c1 t | e => e end
   end.
 
+(* two morphologies built from the same arrays, re-rooted in any interleaving: each is a value of its own *)
+Inductive who : Type := MA | MB.
+
+Fixpoint run_two (cA cB : list Z) (ops : list (who * Z)) : res (list Z * list Z) :=
+  match ops with
+  | [] => Ok (cA, cB)
+  | (MA, i) :: t => match to_root cA i with
+                    | Ok c => run_two c cB t
+                    | IndexErr => IndexErr
+                    | OutOfFuel => OutOfFuel
+                    end
+  | (MB, i) :: t => match to_root cB i with
+                    | Ok c => run_two cA c t
+                    | IndexErr => IndexErr
+                    | OutOfFuel => OutOfFuel
+                    end
+  end.
+
+Definition ops_of (w : who) (ops : list (who * Z)) : list Z :=
+  map snd (filter (fun o => match fst o, w with MA, MA => true | MB, MB => true | _, _ => false end) ops).
+
 (* the undirected edges {v, parent v} of the non-root vertices, each as (min, max) *)
 Definition undirected_edges (c : list Z) : list (Z * Z) :=
   flat_map (fun v => match pyget c v with
@@ -557,6 +578,31 @@ Definition view_case_ok (x : amorph vtx * Z * list (option (segment vtx))) : boo
 Definition conv_case_ok (conv : amorph vtx -> list (option (segment vtx)))
            (x : amorph vtx * option (list (segment vtx))) : bool :=
   match x with (m, cv) => opt_eqb (list_eqb seg_eqb) (sequence (conv m)) cv end.
+
+(* frame case: two morphologies A, B built from the same vertex/connectivity arrays, an interleaved list of to_root
+   calls; the implementation's final connectivities, the CALLER's connectivity array afterwards, both segment views
+   and both conversions.  In the model the input is a value: after any operations it is still `c`. *)
+Definition frame_case_ok
+           (x : list vtx * list Z * list (who * Z) * res (list Z * list Z) * list Z
+                * (list (option (segment vtx)) * list (option (segment vtx)))
+                * (option (list (segment vtx)) * option (list (segment vtx)))) : bool :=
+  match x with
+  | (vs, c, ops, r, caller_after, (vA, vB), (kA, kB)) =>
+    list_eqb Z.eqb c caller_after &&
+    match run_two c c ops, r with
+    | Ok (a, b), Ok (a', b') =>
+      let mA := mk_amorph vtx None vs a None in
+      let mB := mk_amorph vtx None vs b None in
+      list_eqb Z.eqb a a' && list_eqb Z.eqb b b'
+      && list_eqb (opt_eqb seg_eqb) (segments_view vtx mA) vA
+      && list_eqb (opt_eqb seg_eqb) (segments_view vtx mB) vB
+      && opt_eqb (list_eqb seg_eqb) (sequence (to_neuroml_morphology vtx mA)) kA
+      && opt_eqb (list_eqb seg_eqb) (sequence (to_neuroml_morphology vtx mB)) kB
+    | IndexErr, IndexErr => true
+    | OutOfFuel, OutOfFuel => true
+    | _, _ => false
+    end
+  end.
 
 Definition doc_case_ok (w : adoc vtx -> rt vtx) (x : adoc vtx * rt vtx) : bool :=
   match x with (d, r) => rt_eqb (w d) r end.
